@@ -60,6 +60,12 @@ type prodCase struct {
 	State  string `json:"state"`
 	IM     string `json:"if_match_class"`
 	INM    string `json:"if_none_match_class"`
+	// Extra: a further validator header that RFC 7232 tells a recipient to
+	// ignore in this request, so the cell's verdict is the same with it:
+	// "if-unmodified-since-old" (only with If-Match present; the date lies
+	// before the resource's modification time), "if-modified-since-future"
+	// (only with If-None-Match present).
+	Extra string `json:"extra,omitempty"`
 	// filled while executing (for the witness)
 	IMValue  string `json:"if_match_value,omitempty"`
 	INMValue string `json:"if_none_match_value,omitempty"`
@@ -422,6 +428,12 @@ func runCell(c *fw.Ctx, cs *prodCase) (*outcome, error) {
 	if cs.INM != "unset" {
 		hs = append(hs, hdr{"If-None-Match", cs.INMValue})
 	}
+	switch cs.Extra {
+	case "if-unmodified-since-old":
+		hs = append(hs, hdr{"If-Unmodified-Since", "Sat, 01 Jan 2000 00:00:00 GMT"})
+	case "if-modified-since-future":
+		hs = append(hs, hdr{"If-Modified-Since", "Tue, 01 Jan 2030 00:00:00 GMT"})
+	}
 	var body []byte
 	if cs.Method == "PUT" {
 		body = []byte(putBody)
@@ -478,7 +490,7 @@ func execProduct(c *fw.Ctx, cs prodCase) {
 		return
 	}
 	c.Eval(1)
-	c.Distinct("product|" + cs.Method + "|" + cs.State + "|" + cs.IM + "|" + cs.INM)
+	c.Distinct("product|" + cs.Method + "|" + cs.State + "|" + cs.IM + "|" + cs.INM + "|" + cs.Extra)
 	cs.Status, cs.Effect, cs.Diff = o.status, o.effect, strings.Join(o.diff, "; ")
 
 	exists := cs.State != "absent"
@@ -488,6 +500,9 @@ func execProduct(c *fw.Ctx, cs prodCase) {
 		c.Sample(cs)
 	}
 	keyHead := cs.Method + "|" + cs.State + "|" + fold(cs.IM) + "|" + fold(cs.INM) + "|want "
+	if cs.Extra != "" {
+		keyHead = cs.Method + "|" + cs.State + "|" + fold(cs.IM) + "|" + fold(cs.INM) + "|+" + cs.Extra + "|want "
+	}
 	if o.panic != "" {
 		c.Report(keyHead+v.want+"|got panic", "handler panicked: "+o.panic, cs)
 		return
@@ -563,6 +578,15 @@ func runProduct(c *fw.Ctx) {
 					if c.Mine(idx) {
 						execProduct(c, prodCase{Method: m, State: st, IM: im, INM: inm})
 						c.Observe("universe", "product cell (exhaustive 2x4x9x9)", 1)
+						// the same cell with a validator header that must be ignored
+						if im != "unset" {
+							execProduct(c, prodCase{Method: m, State: st, IM: im, INM: inm, Extra: "if-unmodified-since-old"})
+							c.Observe("universe", "product cell repeated with If-Unmodified-Since (ignored next to If-Match)", 1)
+						}
+						if inm != "unset" {
+							execProduct(c, prodCase{Method: m, State: st, IM: im, INM: inm, Extra: "if-modified-since-future"})
+							c.Observe("universe", "product cell repeated with If-Modified-Since (ignored next to If-None-Match)", 1)
+						}
 					}
 					idx++
 				}
